@@ -109,10 +109,10 @@ fn round_quot(
     rem: u128,
     divisor: u128,
     mode: Option<RoundingMode>,
-) -> i128 {
+) -> Option<i128> {
     if rem == 0 {
         // no need for rounding
-        return quot;
+        return Some(quot);
     }
     // here: |divisor| >= 2 => rem <= |divident| / 2,
     // therefor it's safe to use rem << 1
@@ -127,25 +127,25 @@ fn round_quot(
             // or quotient negativ and (quotient + 1) not
             // divisible by 5 w/o rem. => add 1
             if quot >= 0 && quot % 5 == 0 || quot < 0 && (quot + 1) % 5 != 0 {
-                return quot + 1;
+                return quot.checked_add(1);
             }
         }
         RoundingMode::RoundCeiling => {
             // Round towards Infinity (i. e. not away from 0 if negative):
             // => always add 1
-            return quot + 1;
+            return quot.checked_add(1);
         }
         RoundingMode::RoundDown => {
             // Round towards 0 (aka truncate):
             // quotient negativ => add 1
             if quot < 0 {
-                return quot + 1;
+                return quot.checked_add(1);
             }
         }
         RoundingMode::RoundFloor => {
             // Round towards -Infinity (i.e. not towards 0 if negative):
             // => never add 1
-            return quot;
+            return Some(quot);
         }
         RoundingMode::RoundHalfDown => {
             // Round 5 down, rest to nearest:
@@ -154,7 +154,7 @@ fn round_quot(
             // => add 1
             let rem_doubled = rem << 1;
             if rem_doubled > divisor || rem_doubled == divisor && quot < 0 {
-                return quot + 1;
+                return quot.checked_add(1);
             }
         }
         RoundingMode::RoundHalfEven => {
@@ -166,7 +166,7 @@ fn round_quot(
             if rem_doubled > divisor
                 || rem_doubled == divisor && quot % 2 != 0
             {
-                return quot + 1;
+                return quot.checked_add(1);
             }
         }
         RoundingMode::RoundHalfUp => {
@@ -176,19 +176,19 @@ fn round_quot(
             // => add 1
             let rem_doubled = rem << 1;
             if rem_doubled > divisor || rem_doubled == divisor && quot >= 0 {
-                return quot + 1;
+                return quot.checked_add(1);
             }
         }
         RoundingMode::RoundUp => {
             // Round away from 0:
             // quotient not negative => add 1
             if quot >= 0 {
-                return quot + 1;
+                return quot.checked_add(1);
             }
         }
     }
     // fall-through: round towards 0
-    quot
+    Some(quot)
 }
 
 /// Divide 'divident' by 'divisor' and round result according to 'mode'.
@@ -205,7 +205,12 @@ pub fn i128_div_rounded(
     }
     let (quot, rem) = i128_div_mod_floor(divident, divisor);
     // div_mod_floor with divisor > 0 => rem >= 0
-    round_quot(quot, rem as u128, divisor as u128, mode)
+    // rem != 0 => divisor >= 2 => |quot| <= i128::MAX / 2, so incrementing
+    // quot can not overflow here.
+    match round_quot(quot, rem as u128, divisor as u128, mode) {
+        Some(quot) => quot,
+        None => unreachable!(),
+    }
 }
 
 /// Divide 'divident * 10^p' by 'divisor' and round result according to
@@ -224,7 +229,8 @@ pub fn i128_shifted_div_rounded(
     }
     let (quot, rem) = i128_shifted_div_mod_floor(divident, p, divisor)?;
     // div_mod_floor with divisor > 0 => rem >= 0
-    Some(round_quot(quot, rem as u128, divisor as u128, mode))
+    // None if the rounded quotient exceeds i128::MAX
+    round_quot(quot, rem as u128, divisor as u128, mode)
 }
 
 /// Divide 'x * y' by '10^p' and round result according to 'mode'.
@@ -239,7 +245,8 @@ pub fn i128_mul_div_ten_pow_rounded(
     let divisor = ten_pow(p);
     let (quot, rem) = i256_div_mod_floor(x, y, divisor)?;
     // div_mod_floor with divisor > 0 => rem >= 0
-    Some(round_quot(quot, rem as u128, divisor as u128, mode))
+    // None if the rounded quotient exceeds i128::MAX
+    round_quot(quot, rem as u128, divisor as u128, mode)
 }
 
 #[cfg(feature = "std")]
